@@ -265,9 +265,29 @@ fn chain(rng: &mut Rng, seqs: &[Vec<u8>], alpha: &[u8]) -> String {
     format!("{}:{}:{}:{}", mode, hex(&w), j, if dirs.is_empty() { "-".to_string() } else { dirs })
 }
 
+fn enum_seqs(alpha: &[u8], maxlen: usize, minlen: usize) -> Vec<Vec<u8>> {
+    let mut out = vec![];
+    let mut cur: Vec<Vec<u8>> = vec![vec![]];
+    for l in 0..=maxlen {
+        if l >= minlen {
+            out.extend(cur.iter().cloned());
+        }
+        let mut nxt = vec![];
+        for s in &cur {
+            for &a in alpha {
+                let mut t = s.clone();
+                t.push(a);
+                nxt.push(t);
+            }
+        }
+        cur = nxt;
+    }
+    out
+}
+
 pub fn gen(tier: &str, rng: &mut Rng, out: &mut Vec<String>) {
     let thorough = tier == "thorough";
-    let (nidx, npat) = if thorough { (5_000, 20) } else { (1_200, 10) };
+    let (nidx, npat) = if thorough { (5_000, 20) } else { (2_400, 10) };
     for i in 0..nidx {
         let alpha = alphabet(rng);
         let seqs = sequences(rng, alpha, i % 6 == 5);
@@ -283,6 +303,23 @@ pub fn gen(tier: &str, rng: &mut Rng, out: &mut Vec<String>) {
             let k = *rng.pick(&RATES);
             let chains: Vec<String> = (0..6).map(|_| chain(rng, &seqs, alpha)).collect();
             out.push(format!("ext {} k:{} {}", sq, k, chains.join("/")));
+        }
+    }
+    if thorough {
+        // exhaustive small scope: every single sequence over {A,C,G,T} of length <= 3 (and every pair of sequences
+        // over {A,T} of length <= 2) x every pattern over {A,C,G,T} of length 1..=4, l in {1,2}
+        let pats = enum_seqs(b"ACGT", 4, 1);
+        let mut idx: Vec<String> = enum_seqs(b"ACGT", 3, 0).iter().map(|s| hex(s)).collect();
+        let small = enum_seqs(b"AT", 2, 0);
+        for a in &small {
+            for b in &small {
+                idx.push(format!("{}/{}", hex(a), hex(b)));
+            }
+        }
+        for (j, sq) in idx.iter().enumerate() {
+            for p in &pats {
+                out.push(format!("smems {} k:{} l:{} {}", sq, RATES[j % 4], 1 + (p.len() + j) % 2, hex(p)));
+            }
         }
     }
 }
